@@ -40,12 +40,15 @@ class Analysis:
             variant = vs[vi]
         key = (qualname, vi if extra_key is None else extra_key, d,
                repr(sorted((opts or {}).items(), key=repr)), label)
+        specs._mv_counter[0] = 0
         if key in self._cache:
             return self._cache[key]
         o = {'split': dict(specs.DEFAULT_SPLIT),
-             'lower_bounds': {}}
+             'lower_bounds': {},
+             'summary': dict(specs.DEFAULT_SUMMARY)}
         if opts:
-            o.update(_copy.deepcopy(opts))
+            for k_, v_ in opts.items():
+                o[k_] = v_
         I = interp.Interp(self.prog, o)
         args = specs.build_args(variant, d, label=label)
         self_ = None
